@@ -10,7 +10,7 @@
    the fault is a kill of the process after any k of them. *)
 From PV Require Import Base.Prelude Faults.DictFaults Faults.DictFaultsProofs.
 From PV Require Import MaildirFS.FS MaildirFS.UidList MaildirFS.Ops MaildirFS.Spec
-  MaildirFS.Legal MaildirFS.Examples MaildirFS.CrashProofs.
+  MaildirFS.Legal MaildirFS.Examples MaildirFS.CrashProofs MaildirFS.CommandProofs.
 
 (* ---- dict *)
 (* MOVE: at every instant (after each storage call, wherever the fault lands,
@@ -93,6 +93,20 @@ Theorem C14_move_example_served_once :
   /\ forallb move_conserved_at (seq 0 (S (length ex_move_ops))) = true.
 Proof. exact move_example_conserved. Qed.
 Print Assumptions C14_move_example_served_once.
+
+(* the maildir MULTIAPPEND loop, any number of messages, killed anywhere: its
+   operations are legal, so the invariant holds at every kill point and no
+   message served before is lost or changed *)
+Theorem C14_append_crash_safe : forall lay f s msgs m u k,
+  live s = true -> Inv m ->
+  lookup m (PCtl f CUidl) = Some (File (Text (UidList.print_uidl u))) ->
+  UidList.wf_uidl u = true -> uids_ok u ->
+  (forall a, In a msgs -> key_unused m (a_key a) /\ wf_amsg a = true) ->
+  NoDup (map a_key msgs) ->
+  let mk := after_crash lay m (append_ops f s u msgs) k in
+  Inv mk /\ (forall g v uid key fl c, serves m g v uid key fl c -> serves mk g v uid key fl c).
+Proof. exact append_crash_safe. Qed.
+Print Assumptions C14_append_crash_safe.
 
 (* open finding C14-F2: the maildir backend stores a multi-message APPEND
    message by message; a kill after the first message is recorded leaves it in
